@@ -49,10 +49,26 @@ def rule_drop_resumes(ctx, R="C03/drop-resumes"):
         return
     rets = [i for i in range(b.n) if b.term(i)["k"] == "return"]
     w = must_pass(b, 0, rets, res)
-    ctx.check(w is None, R, "always-resumes", b.where(res[0]), "Drop resumes the threads on every path", "a path through Drop skips resume_threads", detail={"path": w})
+    if w is not None:
+        # a spelled-out Drop repeats resume_threads' own guard: `if self.threads_suspended { detach all }`.  Then every path passes the
+        # test of that flag, and from its true edge every path passes the detaching loop; skipping it when nothing is suspended is what
+        # resume_threads does itself
+        for g in range(b.n):
+            t = b.term(g)
+            if t["k"] != "switch" or t.get("oty") != "bool":
+                continue
+            atom, _h = switch_atom(b, o, g)
+            if not any(q[0] == "field" and q[2] == "threads_suspended" for q in walk(atom)):
+                continue
+            neg = core(atom)[0] == "un" and core(atom)[1] == "Not"      # `if !suspended` materialised as a negated temporary
+            tru = [s_ for (s_, lab) in b.succ_edges(g) if (lab[0] == "sw" and lab[1] == 0) == neg]
+            if tru and must_pass(b, 0, rets, [g]) is None and all(must_pass(b, s_, rets, res) is None for s_ in tru):
+                w = None
+    ctx.check(w is None, R, "always-resumes", b.where(res[0]), "Drop resumes the threads on every path (on which any are suspended)", "a path through Drop skips resume_threads", detail={"path": w})
     w = must_pass(b, 0, rets, con)
     ctx.check(w is None, R, "always-continues", b.where(con[0]), "Drop sends SIGCONT on every path", "a path through Drop skips continue_process", detail={"path": w})
-    ctx.check(all(b.dominates(r, c) for r in res for c in con), R, "order", b.where(con[0]), "threads are detached before the process is continued", "continue_process can run before resume_threads")
+    ctx.check(all(c in b.reachable_from(r, unwind=False) and r not in b.reachable_from(c, unwind=False) for r in res for c in con), R, "order", b.where(con[0]),
+              "threads are detached before the process is continued", "continue_process can run before resume_threads")
     for bi in res + con:
         if b.term(bi)["k"] != "call" or not CalleeView(b.term(bi)["callee"]).is_(PD + "::resume_threads", PD + "::continue_process"):
             continue
